@@ -199,7 +199,15 @@ class Gen:
             return ("raw", "INSTR(%s, %s)" % (self.pr(self.sexpr(depth, ctx), 6), self.pr(self.sexpr(0, ctx), 6)), 6)
         if k < 0.8:
             a = self.sexpr(depth, ctx)
-            b = a if r.random() < 0.3 else self.sexpr(depth, ctx)      # equal operands exercise the boundary of <= >= <>
+            m = r.random()
+            if m < 0.3:
+                b = a                                                    # equal operands exercise the boundary of <= >= <>
+            elif m < 0.5:
+                b = ("b", "+", a, ("s", '"%s"' % r.choice("aZ0 ~!")))    # a is a proper prefix of b (str_cmp: shorter is smaller)
+                if r.random() < 0.5:
+                    a, b = b, a
+            else:
+                b = self.sexpr(depth, ctx)
             return ("b", r.choice(["=", "<", ">", "<=", ">=", "<>"]), a, b)
         inner = self.pr(self.cexpr(min(depth, 2), dict(ctx, novar=True, loopvars=[], loopranges={})), 0)
         if '"' in inner or "$" in inner or "(" in inner and "q" in inner:
@@ -665,6 +673,13 @@ class Gen:
 
 
 CORPUS = [
+    # string relations on prefix pairs / the empty string, INSTR with repeated and trailing occurrences (case split of
+    # str_cmp_* and instr_spec in coq/C17/StrProof.v)
+    ["10 a$ = \"ab\" : b$ = \"abc\" : e$ = \"\"",
+     "20 PUNCH a$ < b$, a$ <= b$, a$ <> b$, a$ = b$, a$ > b$, a$ >= b$, b$ < a$, b$ <= a$, b$ <> a$, b$ > a$, b$ >= a$",
+     "30 PUNCH e$ < a$, e$ <= a$, e$ <> a$, e$ = e$, a$ > e$, e$ >= a$, e$ > a$, \"ab \" > a$, \"aB\" < a$, \"b\" > b$",
+     "40 PUNCH INSTR(\"abab\", \"a\"), INSTR(\"abab\", \"b\"), INSTR(\"abab\", \"ab\"), INSTR(\"abab\", \"ba\"), INSTR(\"abab\", \"bab\"), INSTR(\"abab\", \"abab\"), INSTR(\"abab\", \"ababa\"), INSTR(\"abab\", \"\"), INSTR(\"\", \"a\"), INSTR(\"aab\", \"ab\")",
+     "50 PUNCH PAD(a$, 2) + \"|\", PAD(a$, 1) + \"|\", PAD(e$, 3) + \"|\", LEN(PAD(b$, 7)), LTRIM(\"  a b  \") + \"|\", RTRIM(\"  a b  \") + \"|\", TRIM(\"   \") + \"|\""],
     ["10 x = 2^3^2", "20 PUNCH x, 7 MOD 3, -2^2, \"abc\", 1/0, STR$(12), 1 < 2 < 3", "30 FOR i = 1 TO 3 : PUNCH i*1.5 : NEXT i",
      "40 PUNCH \"a longer string than twelve\", NOT 0, 5 AND 3, 5 OR 3, 5 XOR 3, 2.5 AND 3.7",
      "50 PUNCH INSTR(\"hello\",\"ll\"), MID$(\"hello\",2,3), LEN(\"abc\"), ASC(\"A\"), CHR$(66), VAL(\"1+2*3\"), PAD(\"ab\",5)+\"|\", LTRIM(\"  x \"), RTRIM(\" x  \")+\"|\"",
